@@ -3,6 +3,7 @@ import NutsModel.C11.Revocation
 import NutsModel.C11.Wire
 import NutsModel.C11.ValidAt
 import NutsModel.C11.CredStatus
+import NutsModel.C11.CredStatusJson
 import NutsModel.C11.Reprocess
 import NutsModel.C11.Resolve
 import NutsModel.C11.Present
@@ -398,17 +399,21 @@ def step (w : World) (j : Json) : World × List String :=
   | "visrevoked" => (w, [s!"visrevoked {w.b.isRevoked (jStr j "id")}"])
   | "vverify" =>
     -- the credential's status entries as wire strings (what the harness puts into the JSON), `mal` = how one is malformed
-    let wires : List Wire.WireEntry := (jArr j "statuses").zipIdx.map fun (s, k) =>
+    let wires : List Wire.JEntry := (jArr j "statuses").zipIdx.map fun (s, k) =>
       let mal := jStr s "mal"
       let url := if mal == "badurl" then "lists.example/not-a-request-uri" else jStr s "url"
       { id := if mal == "noid" then "" else if mal == "idislist" then url else s!"{url}#{jStr s "idx"}-{k}"
         type := if mal == "notype" then "" else if mal == "othertype" then "OtherStatus" else "StatusList2021Entry"
-        purpose := if mal == "nopurpose" then "" else if mal == "suspension" then "suspension" else "revocation"
-        index := jStr s "idx", list := url }
+        purpose := if mal == "nopurpose" then .str "" else if mal == "suspension" then .str "suspension"
+                   else if mal == "numpurpose" then .other else .str "revocation"
+        -- numidx / boolidx / objidx: the JSON member is the number (bool, object) instead of a string; nullidx: JSON null
+        index := if mal == "numidx" || mal == "boolidx" || mal == "objidx" then .other else if mal == "nullidx" then .null
+                 else .str (jStr s "idx")
+        list := .str url }
     let cid := if jStr j "id" == "" then none else some (jStr j "id")
     -- validAt = now + `at` minutes (absent: nil); the harness credential is issued one hour ago and never expires
     let atMin := jInt j "at"
-    let (v, w') := Wire.verifyWire env true w cid (jStr j "issuer") (!jBool j "noslctx") (fun u => u.startsWith "https://") Url.raw
+    let (v, w') := Wire.verifyWireJ env true w cid (jStr j "issuer") (!jBool j "noslctx") (fun u => u.startsWith "https://") Url.raw
       (if wires.isEmpty then none else some wires) (jStr j "kind" == "nutsorg") (jBool j "storefault")
       (if atMin == 0 then none else some atMin) 0 (fun t => decide (-60 ≤ t))
     (w', ["vverify " ++ verdictStr v])
